@@ -43,6 +43,28 @@ for _pid, _mods in EXTRA_MODULES.items():
     if _pid in PROPS:
         PROPS[_pid]["modules"] = list(dict.fromkeys(PROPS[_pid]["modules"] + _mods))
 
+# Obligations over tables regenerated from the Go source on every run (translators T2 and T4, DESIGN 5.4): the Lean
+# module that states the obligation is added to the property's audited modules, the obligation name to
+# PROP["obligations"] (a translator line `OBLIGATION <name> BROKEN <fact>` then counts for the property), and the
+# translator to its trusted base.
+TRANSLATOR_TIES = {
+    "filter_sigs_are_standard": {
+        "props": ["C01", "C15", "C16", "C17"],
+        "module": "Proofs.FilterSigs",
+        "trusted": "translator T2 (translate/filters, go/packages + go/types of golang.org/x/tools v0.29.0, nothing executed) reads "
+                   "the AddFilter calls reachable from filters.AddStandardFilters; filter_sigs_are_standard re-checks its output "
+                   "against the model's table stdFilters on every run (names, parameter types, default-function parameters, "
+                   "error result); the filter BODIES are tied by the correspondence streams, not by T2",
+    },
+}
+for _name, _t in TRANSLATOR_TIES.items():
+    for _pid in _t["props"]:
+        if _pid in PROPS:
+            _P = PROPS[_pid]
+            _P["modules"] = list(dict.fromkeys(_P["modules"] + [_t["module"]]))
+            _P["obligations"] = list(dict.fromkeys(_P.get("obligations", []) + [_name]))
+            _P["trusted_base"] = list(dict.fromkeys(_P.get("trusted_base", []) + [_t["trusted"]]))
+
 # hook commits in /repo (build tag `verif`)
 HOOK_COMMITS = ["635e10c"]
 # properties that are not claimed, with the reason
